@@ -20,7 +20,7 @@ func init() {
 		Rule: "case = (type, message) with types mixing alignments 1/2/4/8 (odd-length strings before list<i64>, *bool before *double, Wide zoo struct), list/string sizes on both sides of the allocator's 256-byte large-object and 2048-byte block thresholds, list<string>, list<*struct>, maps with pointer keys/values, optional scalar pointers, holders, zero-length values; after decoding, the memory walker lists every pointee / slice backing array up to cap / non-empty string: each must be aligned, pairwise disjoint - also against the pieces of the 64 most recent decoded objects kept alive -, and outside the input buffer. Then a stress epoch: the input is overwritten, 3-8 further messages are decoded through the same pooled decoder (pool sanitizer skewing and filling the recycled block in half of the cases), runtime.GC() x3 (GODEBUG=clobberfree=1 in the clobber build: freed memory is overwritten), fresh garbage of the same size classes is allocated and filled, and the raw image and canonical value of every retained object are compared with the snapshot taken right after its decode. The allocator contract monitor hook checks every sub-allocation. distinct = distinct type shape; non-trivial = the object has at least 3 pieces",
 		Plan: func(tier string) []BuildPlan {
 			if tier == "thorough" {
-				return []BuildPlan{{"plain", 60000}, {"clobber", 60000}, {"checkptr", 30000}, {"asan", 20000}, {"race", 5000}}
+				return []BuildPlan{{"plain", 20000}, {"clobber", 20000}, {"checkptr", 10000}, {"asan", 6000}, {"race", 2000}}
 			}
 			return []BuildPlan{{"plain", 800}, {"clobber", 800}, {"checkptr", 400}, {"asan", 300}}
 		},
